@@ -53,6 +53,13 @@ CLAIMED = {
             "a value (definite assignment, attribute existence).",
             "partial sums / dot along selected modes are decided for concrete small orders only (see evidence); numerical stability is not decided",
             "DESIGN.md section 4 C07"),
+    "C08": ("contraction-structure type checking (E5) of __getitem__/reduce_dims on concrete small orders via the closed value of the "
+            "returned train; sweep typing of apply_mask; constructor-argument kind rule",
+            "Clause level: for orders 1-3 (operators: 2) and symbolic sizes/indices/slices, on every structural path (which kept modes have "
+            "size 1, rank orderings inside reduce_dims) x[index] has the dense value and shape of x.full()[index]; apply_mask is the "
+            "specified batched chain for every order.",
+            "orders above 3 and per-axis slice arithmetic (negative indices, steps: torch's own) are not decided",
+            "DESIGN.md section 4 C08"),
     "C09": ("contraction-structure type checking: abstract interpretation of the core-building code over symbolic sizes and contraction networks (merged / block-partitioned axes), per position class and structural path, compared by canonical form with chain specifications",
             "diag (both directions), to_ttm, conj, clone per position class; cat/pad/mprod scenarios as listed in the evidence.",
             "exact arithmetic", "DESIGN.md section 4 C09"),
